@@ -260,3 +260,75 @@ def arm_entry(body, switch_pat, label):
             if label in ls:
                 out.append((bi, tgt))
     return out
+
+
+# ---------------------------------------------------------------------------- decision tables (K7 light)
+import itertools
+
+
+def local_by_name(body, name):
+    ls = [k for k, v in body.names.items() if v == name]
+    if len(ls) != 1:
+        raise mir.RuleError("local %r in %s: %d hits" % (name, body.npath, len(ls)))
+    return ls[0]
+
+
+def _sym(text, atom_map):
+    for pat, name in atom_map:
+        if re.search(pat, text):
+            return name
+    return None
+
+
+def decision_rows(body, sites, atom_map, value_of, ignore=r"tracing::|__CALLSITE|level_enabled|enabled$"):
+    """For each site (assignment / aggregate / call) build a row: (guards, value, site).
+    guards: dict atom -> frozenset(labels) from the switches that hold on all paths to the site.
+    Conditions that match no atom and match `ignore` are dropped; other unmapped conditions are kept
+    under the key '?<text>' so the caller can fail closed."""
+    rows = []
+    ig = re.compile(ignore)
+    for s in sites:
+        gs = body.guards_on_all_paths(s.bb)
+        g = {}
+        for text, labels, _, cond in gs:
+            a = _sym(text, atom_map)
+            if a is None:
+                if ig.search(text):
+                    continue
+                a = "?" + text[:120]
+            if a in g:
+                g[a] = g[a] & labels
+            else:
+                g[a] = frozenset(labels)
+        rows.append((g, value_of(s), s))
+    return rows
+
+
+def check_table(ctx, rule, name, rows, domain, ref, where=""):
+    """Exhaustively evaluate the extracted rows over the finite domain (dict atom -> list of labels).
+    ref(assign) -> expected value, or None for don't-care.  Every cell must be covered by >=1 row and all
+    covering rows must give the expected value."""
+    unknown = sorted({a for g, _, _ in rows for a in g if a not in domain})
+    ok_all = True
+    atoms = list(domain)
+    ncells = 0
+    bad = []
+    for combo in itertools.product(*[domain[a] for a in atoms]):
+        asg = dict(zip(atoms, combo))
+        want = ref(asg)
+        if want is None:
+            continue
+        ncells += 1
+        vals = set()
+        for g, v, _ in rows:
+            if all((a not in asg) or (asg[a] in ls) for a, ls in g.items() if a in domain):
+                vv = v(asg) if callable(v) else v
+                vals.add(vv)
+        if vals != {want}:
+            ok_all = False
+            if len(bad) < 6:
+                bad.append("%s -> got %s want %s" % (asg, sorted(map(str, vals)), want))
+    ctx.ob(rule, name + "/no-unmodelled-guards", not unknown, where, "guards outside the table's atoms: %s" % unknown)
+    ctx.ob(rule, name + "/table", ok_all and ncells > 0, where,
+           "decision table evaluated on %d cells over %s: %s" % (ncells, atoms, "all equal to reference" if ok_all else "; ".join(bad)))
+    return ok_all and not unknown
